@@ -9,6 +9,7 @@ import (
 	"go/constant"
 	"go/token"
 	"go/types"
+	"sort"
 	"strings"
 
 	"golang.org/x/tools/go/ssa"
@@ -407,8 +408,62 @@ func (w *World) callKey(c ssa.CallInstruction) string {
 			}
 			return w.funcKey(f)
 		}
+	case *ssa.Parameter:
+		// a function-typed parameter of a helper: the functions its call sites pass
+		if ks := w.funcParamKeys(v); len(ks) == 1 {
+			return ks[0]
+		} else if len(ks) > 1 {
+			return "multi:" + strings.Join(ks, "|")
+		}
 	}
 	return "dynamic"
+}
+
+// funcParamKeys: for a function-typed parameter of a walked-through helper, the keys of the functions passed at
+// all of its call sites (method values, function values); nil when any site passes something else.
+func (w *World) funcParamKeys(p *ssa.Parameter) []string {
+	fn := p.Parent()
+	if !isHelper(fn) {
+		return nil
+	}
+	idx := -1
+	for k, q := range fn.Params {
+		if q == p {
+			idx = k
+		}
+	}
+	set := map[string]bool{}
+	for _, site := range w.callSitesOf(fn) {
+		if idx < 0 || idx >= len(site.Call.Args) {
+			return nil
+		}
+		switch a := site.Call.Args[idx].(type) {
+		case *ssa.MakeClosure:
+			f, ok := a.Fn.(*ssa.Function)
+			if !ok {
+				return nil
+			}
+			if fo, ok := f.Object().(*types.Func); ok && f.Synthetic != "" {
+				set[w.funcObjKey(fo)] = true
+			} else {
+				set[w.funcKey(f)] = true
+			}
+		case *ssa.Function:
+			if fo, ok := a.Object().(*types.Func); ok {
+				set[w.funcObjKey(fo)] = true
+			} else {
+				set[w.funcKey(a)] = true
+			}
+		default:
+			return nil
+		}
+	}
+	var out []string
+	for k := range set {
+		out = append(out, k)
+	}
+	sort.Strings(out)
+	return out
 }
 
 func (w *World) funcObjKey(f *types.Func) string {
@@ -455,7 +510,19 @@ func (w *World) isCallTo(keys ...string) func(ssa.Instruction) bool {
 	}
 	return func(in ssa.Instruction) bool {
 		c := asCall(in)
-		return c != nil && set[w.callKey(c)]
+		if c == nil {
+			return false
+		}
+		k := w.callKey(c)
+		if strings.HasPrefix(k, "multi:") {
+			for _, one := range strings.Split(k[len("multi:"):], "|") {
+				if set[one] {
+					return true
+				}
+			}
+			return false
+		}
+		return set[k]
 	}
 }
 
@@ -671,23 +738,51 @@ func walkPaths(start Loc, terminal func(ssa.Instruction) bool, edgeOK func(b *ss
 	return walkPathsP(start, terminal, f, budget, visit)
 }
 
+// curScanIdx: index on the current path of the instruction a predicate is being asked about (countOn, indexOn,
+// forPath); lets predicates resolve values in the right activation when a helper occurs several times on a path.
+var curScanIdx = -1
+
+// rvCur resolves v as seen by the instruction currently scanned (or, outside a scan, by its defining instruction).
+func rvCur(v ssa.Value) ssa.Value {
+	if curPath != nil && curScanIdx >= 0 {
+		return rvI(v, curScanIdx)
+	}
+	return rvAny(v)
+}
+
 func countOn(path []ssa.Instruction, pred func(ssa.Instruction) bool) int {
 	n := 0
-	for _, in := range path {
+	saved := curScanIdx
+	for i, in := range path {
+		curScanIdx = i
 		if pred(in) {
 			n++
 		}
 	}
+	curScanIdx = saved
 	return n
 }
 
 func indexOn(path []ssa.Instruction, pred func(ssa.Instruction) bool) int {
+	saved := curScanIdx
+	defer func() { curScanIdx = saved }()
 	for i, in := range path {
+		curScanIdx = i
 		if pred(in) {
 			return i
 		}
 	}
 	return -1
+}
+
+// forPath iterates over the path with curScanIdx set.
+func forPath(path []ssa.Instruction, f func(i int, in ssa.Instruction)) {
+	saved := curScanIdx
+	for i, in := range path {
+		curScanIdx = i
+		f(i, in)
+	}
+	curScanIdx = saved
 }
 
 // pathTakes: does the instruction path traverse an edge asserting pred?
